@@ -649,6 +649,8 @@ fn oracle_c04(plan: &Plan, built: &Built, auth: &Repaired, unauth: &Repaired, fa
 struct ErrOnceSeek {
     data: Vec<u8>,
     pos: u64,
+    /// at most this many bytes per read (a chunk load then takes several reads, and the failure can fall between them)
+    q: usize,
     armed: std::sync::Arc<std::sync::atomic::AtomicIsize>,
 }
 impl Read for ErrOnceSeek {
@@ -662,7 +664,7 @@ impl Read for ErrOnceSeek {
             }
         }
         let p = (self.pos as usize).min(self.data.len());
-        let n = buf.len().min(self.data.len() - p);
+        let n = buf.len().min(self.data.len() - p).min(self.q.max(1));
         buf[..n].copy_from_slice(&self.data[p..p + n]);
         self.pos += n as u64;
         Ok(n)
@@ -689,13 +691,14 @@ fn c04_read_after_source_error(rng: &mut Rng, tier: &str, out: &mut Out) {
     let n = if tier == "thorough" { 6 } else { 2 };
     for (ai, (plan, built, _)) in c04_archives(rng, tier).iter().take(n).enumerate() {
         let mut msg: Option<String> = None;
-        'k: for k in 0..24isize {
+        'k: for k in 0..48isize {
+            let q = [7usize, 16, 33, 100_000][(k % 4) as usize];
             for fi in 0..plan.names.len() {
                 let armed = std::sync::Arc::new(std::sync::atomic::AtomicIsize::new(-1));
                 let r = catch(|| -> Result<(), String> {
                     let mut cfg = mla::config::ArchiveReaderConfig::new();
                     cfg.add_private_keys(&built.privs);
-                    let mut rd = mla::ArchiveReader::from_config(ErrOnceSeek { data: built.bytes.clone(), pos: 0, armed: armed.clone() }, cfg).map_err(|e| format!("open: {e:?}"))?;
+                    let mut rd = mla::ArchiveReader::from_config(ErrOnceSeek { data: built.bytes.clone(), pos: 0, q, armed: armed.clone() }, cfg).map_err(|e| format!("open: {e:?}"))?;
                     let nm = String::from_utf8_lossy(&plan.names[fi]).into_owned();
                     armed.store(k, std::sync::atomic::Ordering::Relaxed);
                     let Ok(Some(mut f)) = rd.get_file(nm) else { return Ok(()) };
